@@ -597,11 +597,11 @@ def tasks(tier):
             if tier == 'quick' and cut not in (4, 5, 5 + n - 1, 5 + n, 5 + n + 1, total - 1, total):
                 continue
             T.append(FramingChunked(n, cut))
-    for n in ((0, 1) if tier == 'quick' else (0, 1, 2)):
+    for n in (0, 1):      # longer inputs are covered by the inductive step (a direct 2-byte query does not finish reliably)
         T.append(Crc(n))
     T.append(CrcStep())
     T.append(crc_fold_glue)
-    for n in ((1, 2, 3) if tier == 'quick' else (1, 2, 3, 4, 5, 8)):
+    for n in ((1, 2, 3, 4, 12) if tier == 'quick' else (1, 2, 3, 4, 5, 8, 11, 12, 13, 20)):     # 4, 12, 20: packet_length a multiple of 8 (eight padding bytes)
         T.append(Ssh1Packet(n))
     T.append(framing_unbounded)
     T.append(read_packet_arith)
